@@ -12,7 +12,7 @@ import cli
 import core
 import tlc
 
-SCI = re.compile(r"(?<![\w.])(-?\d\.\d{8}e[-+]\d{2,3}|-?nan|-?inf)(?![\w.])")
+SCI = re.compile(r"(?<![\w.])(-?\d\.\d{8}e[-+]\d{2,3}|-?nan|-?inf)(?![\w.%])")
 PCT = re.compile(r"\(\s*(-?\d+\.\d|-?nan|-?inf)%")
 
 
